@@ -37,6 +37,8 @@ def _worker(args):
         from pyvc.contract import REG
         from pyvc import smt
         smt.prove_bit_lemmas()
+        from pyvc import spec
+        smt.axioms_consistency_selftest(spec.consistency_witnesses())
         task = REG.task(key)
         results, meta = task.verify(REG, budget_ms)
         meta['wall_s'] = time.time() - t0
@@ -135,14 +137,18 @@ def run_check(prop, tier, seed, replay=None, update_baseline=False):
 
     # failing inputs found by the concrete cross-check are violations by themselves
     for x in xres:
+        unlisted = []
         for fail in x.get('failures', []):
             k = match_known(known, prop, fail)
             if k is not None:
-                known_hit.append((k, fail))
+                if not any(k is kk for kk, _ in known_hit):
+                    known_hit.append((k, fail))
                 continue
+            unlisted.append(fail)
+        if unlisted:
             r = {'obligation': '%s::crosscheck' % x['name'], 'qual': x.get('function'), 'verdict': 'refuted',
-                 'backend': 'cpython', 'reason': fail.get('what'), 'model': None, 'trace': None}
-            record_violation(r, 'real function disagrees with the executable specification', fail)
+                 'backend': 'cpython', 'reason': unlisted[0].get('what'), 'model': None, 'trace': None}
+            record_violation(r, 'real function disagrees with the executable specification', unlisted)
 
     unproved = refuted + undecided
     for r in unproved:
